@@ -132,3 +132,13 @@ CHECKS['C20'] = dict(
          'exports with a closed category set in the extended encoding, get_kern_from_ekern undoes exactly the header prefix and the separators.',
     note='Not decided: byte equality on all texts; the ekern -> kern -> ekern round trip (C01). Trusted: csv/io/open semantics, pathlib glob/rglob.',
 )
+
+CHECKS['C17'] = dict(
+    category='other',
+    technique='work-list discipline rule (LIFO + reversed children, visit-before-push) on the traversal loop; visitor guards as truth tables with per-path append sets; sibling comparison of the derived queries on symbolic return values; monophony truth table',
+    text='Decides for every tree: the traversal is pre-order depth-first left-to-right with one visit per node; the token visitor lists a token iff '
+         '`token and (not unique or not seen) and category in filter` and records encodings exactly when unique; all/unique listings differ only '
+         'in the flag and close the filter with valid(include=...); encodings, frequencies, header and spine-id queries are derived from them '
+         '(one count per listed token); the comment query keeps order and filters by key prefix; is_monophonic has the stated truth table.',
+    note='Not decided: the listing order through arbitrary split/join trees (needs C02 as well). Trusted: list.pop/extend/reversed semantics.',
+)
